@@ -63,7 +63,7 @@ C13_OPS = [
     "to_dict", "from_strings", "to_str_list", "parse", "write_file", "read_file", "tl_or", "tl_sub", "tl_and", "construct",
 ]
 # queries: named by C13's statement ("query"), not by its operation list; they run in C13 sessions too
-C13_QUERY_OPS = ["c_vars", "tl_vars", "c_hash", "compound_misc", "compound_file", "contains_behavior", "evaluate", "is_empty", "contains_environment", "contains_implementation", "vertices",
+C13_QUERY_OPS = ["compound_purity", "c_vars", "tl_vars", "c_hash", "compound_misc", "compound_file", "contains_behavior", "evaluate", "is_empty", "contains_environment", "contains_implementation", "vertices",
                  "compound_from_strings", "compound_merge", "compound_le", "c_eq", "tl_eq", "c_str"]
 # further public operations in C14's quantifier
 C14_EXTRA_OPS = ["plot_assumptions", "plot_guarantees", "c_vars", "tl_vars", "compound_misc", "compound_file", "contains_behavior", "evaluate", "is_empty", "compound_from_strings", "compound_merge", "compound_le",
@@ -165,6 +165,34 @@ def call(name: str, a: Dict[str, Any]) -> Any:  # noqa: WPS212, WPS231
         c2 = PolyhedralIoContractCompound.from_strings(**a["c2"])
         out = [c1.to_dict(), str(c1), c1 == c2, c1 == c1, c1.a.contains_behavior(a["behavior"]), c1.g.contains_behavior(a["behavior"])]
         return out
+    if name == "compound_purity":
+        # compound contracts are not pool members; their purity is checked inside the operation: build two, snapshot them,
+        # derive everything derivable, vandalise the derived objects, and see whether the originals or the arguments noticed
+        from pactisim import canon as _cn  # noqa: WPS433
+
+        c1 = PolyhedralIoContractCompound.from_strings(**a["c1"])
+        c2 = PolyhedralIoContractCompound.from_strings(**a["c2"])
+        before = [_cn.canon(c1), _cn.canon(c2)]
+        derived = []
+        for fn in (lambda: c1.merge(c2), lambda: c1.a.intersect(c2.a, True), lambda: c1.g.intersect(c2.g, False), lambda: c1.a.copy(True),
+                   lambda: c1.g.copy(False), lambda: type(c1)(c1.a, c1.g, c1.inputvars, c1.outputvars), lambda: c1.to_dict(),
+                   lambda: type(c1.g)(c1.g.nested_termlist, False), lambda: c1.g.simplify(c1.a, False)):
+            try:
+                derived.append(fn())
+            except ValueError:
+                derived.append(None)
+        mid = [_cn.canon(c1), _cn.canon(c2)]
+        shared = []
+        r1 = {}
+        _cn.reach(c1, r1)
+        _cn.reach(c2, r1)
+        for k_, d_ in enumerate(derived):
+            rd = _cn.reach(d_, {})
+            if any(x in r1 for x in rd):
+                shared.append(k_)
+            _cn.vandalise(d_)
+        after = [_cn.canon(c1), _cn.canon(c2)]
+        return {"operands_unchanged_by_calls": before == mid, "operands_unchanged_by_editing_results": mid == after, "results_sharing_with_operands": shared}
     if name == "compound_file":
         c1 = PolyhedralIoContractCompound.from_strings(**a["c1"])
         fileio.write_contracts_to_file([c1, a["self"]], ["k", "plain"], a["file_name"], False)
@@ -977,7 +1005,7 @@ def gen_step(rs, view: View, allowed_ops: List[str], weights: Optional[Dict[str,
     elif name in ("contains_environment", "contains_implementation"):
         A["self"] = {"slot": ci}
         A["component"] = {"slot": li}
-    elif name in ("compound_from_strings", "compound_merge", "compound_le", "compound_misc", "compound_file"):
+    elif name in ("compound_from_strings", "compound_merge", "compound_le", "compound_misc", "compound_file", "compound_purity"):
         def comp():  # noqa: WPS430
             iv = rs.choice(NAMES[:3])
             ov = rs.choice(NAMES[3:6])
